@@ -25,7 +25,10 @@ def run(ctx):
     ctx.lean_proofs("Props.C16")
     c16wire.run(ctx, n=None if ctx.thorough else 400)   # byte-level half (codec package): Props.C16wire + the real decoder on rewritten frames
     ctx.rule("c16: real app as in c15. Re-encodings come from the byte-level rewriter harness/internal/wirerw (the one judged against the real "
-             "decoder in stream c16wire): 25 classes, 17 content-preserving, 8 that must be rejected or change the content. Core: for each class "
+             "decoder in stream c16wire): 25 classes, 17 content-preserving, 8 that must be rejected or change the content. Core: one tx of every "
+             "outcome class {code 0; ante reject auth/<10; ante reject in the root codespace (sdk/4); handler failure after the fee with a ROOT code < 10 "
+             "(DAO transfer / burn by a non-owner); handler failure with a module code (pos, gov); root code >= 10 (sdk/10)} and the identical bytes "
+             "again in the next block and the block after; then for each class "
              "original + variant + original again in one block, and original in one block then variant + original in the next. Random: 30% "
              "unchanged resubmissions and 30% re-encodings of any of the last 400 byte strings (also of failed ones and of variants), rest fresh "
              "txs (15 message kinds, 8% signature and fee defects), blocks of 1-4 txs. non-trivial = the real ante handler passed; distinct = "
